@@ -2,7 +2,7 @@
 import copy
 import json
 from .. import core
-from ..corr import k12, mir as cm
+from ..corr import k10, k12, mir as cm
 from ..gen import programs, rng as R
 from ..real import interp
 from ..real.env import reset_globals
@@ -137,6 +137,51 @@ def one_history(tag, idx, max_cmds, n_prefix):
     return combined, results, b_events, b_results, fresh.results
 
 
+def entry_point_histories(res, tier):
+    """Histories through the real entry points, with sharing: a generated program with several compile points is
+    rendered as a chain of modules (K10) — program j consists of the shared modules 0..j and its own file.  Each
+    program is compiled (a) after all earlier programs of the chain were compiled in this process and (b) alone, from
+    the import-time state; the two MIRs must agree up to id renaming and literal renaming.  The program text is the
+    same in both runs; only the history differs (earlier compilations, values of shared modules already traced)."""
+    n = 40 if tier == "quick" else 600
+    stats = {"chains": 0, "programs_compared": 0, "not_renderable": 0}
+    kinds = ["sharedlit", "failedcompile", "closureloop", "samelit", None, None, "diamond", "captured", "triangle", None]
+    for idx in range(n):
+        scen = kinds[idx % len(kinds)]
+        m, _ = programs.generate("C08ep", idx, max_cmds=22, scenario=scen)
+        events, results = m.events, m.results
+        ncomp = sum(1 for e in events if "compile" in e)
+        if ncomp < 2:
+            continue
+        via = "string" if idx % 4 == 0 else "script"
+        r = k10.run_scripts(events, results, f"c08h{idx}", via=via)
+        if r is None:
+            stats["not_renderable"] += 1
+            continue
+        hist, files = r
+        stats["chains"] += 1
+        for j in range(1, ncomp):
+            alone, _ = k10.run_scripts(events, results, f"c08f{idx}_{j}", via=via, only={j})
+            a, b = hist[j], alone[j]
+            stats["programs_compared"] += 1
+            text = None
+            if ("mir" in a) != ("mir" in b):
+                text = f"after the history: {a.get('msg', 'compiled')}; alone: {b.get('msg', 'compiled')}"
+            elif "mir" in a:
+                d = cm.first_diff(normalize(a["mir"]), normalize(b["mir"]))
+                if d:
+                    text = f"MIR after the history differs from the MIR of the same program compiled alone: {d}"
+            elif a.get("err") != b.get("err"):
+                text = f"after the history: {a.get('msg')}; alone: {b.get('msg')}"
+            if text:
+                res.violation({"property": "C08", "kind": "entry-point-history", "events": events, "program_index": j, "via": via,
+                               "files": files, "text": text},
+                              f"chain {idx}, program {j} of {ncomp} through compile_{via}: {text}"[:400])
+        if len(res.violations) > 10:
+            break
+    return stats
+
+
 def names_of(mir):
     out = set()
     out.update(("input", i["name"]) for i in mir["inputs"])
@@ -189,6 +234,7 @@ def run(res, tier):
             samples.append({"history_events": len(combined), "prefix_programs": n_prefix, "later_program": b_events[:10]})
         if len(res.violations) > 10:
             break
+    ep = entry_point_histories(res, tier)
     reset_globals()
     for idx, d, combined in diffs[:5]:
         res.broken.append({"decl": "K3 correspondence (history run: model vs real implementation)",
@@ -201,6 +247,7 @@ def run(res, tier):
                 "run from a pristine state, up to order-preserving id renaming and literal renaming by first use; "
                 "non-trivial = distinct normalised MIRs of B with >= 3 operations",
         "correspondence_disagreements": len(diffs),
+        "entry_point_histories": ep,
         "samples": samples,
     })
     res.assumptions += [
@@ -211,6 +258,19 @@ def run(res, tier):
 
 
 def replay(obj):
+    if obj.get("kind") == "entry-point-history":
+        reset_globals()
+        m = interp.run_events(copy.deepcopy(obj["events"]))
+        j = obj["program_index"]
+        hist, _ = k10.run_scripts(m.events, m.results, "c08rh", via=obj["via"])
+        alone, _ = k10.run_scripts(m.events, m.results, "c08rf", via=obj["via"], only={j})
+        a, b = hist[j], alone[j]
+        bad = ("mir" in a) != ("mir" in b) or ("mir" in a and cm.first_diff(normalize(a["mir"]), normalize(b["mir"]))) \
+            or ("mir" not in a and a.get("err") != b.get("err"))
+        print("differs" if bad else "same")
+        if bad:
+            print("VIOLATION property=C08 replay=(replayed)")
+        return 1 if bad else 0
     reset_globals()
     m = interp.run_events(copy.deepcopy(obj["history"]))
     nb = sum(1 for e in obj["program"])
